@@ -391,12 +391,14 @@ class InternationalizationExtension(Extension):
 
         plural = None
         have_plural = False
-        referenced = set()
+        # free names in first-reference order (a set here would make the keyword order of the
+        # generated gettext call depend on the hash seed)
+        referenced: list[str] = []
 
         # now parse until endtrans or pluralize
         singular_names, singular = self._parse_block(parser, True)
         if singular_names:
-            referenced.update(singular_names)
+            referenced.extend(singular_names)
             if plural_expr is None:
                 plural_expr = nodes.Name(singular_names[0], "load")
                 num_called_num = singular_names[0] == "num"
@@ -418,7 +420,7 @@ class InternationalizationExtension(Extension):
             parser.stream.expect("block_end")
             plural_names, plural = self._parse_block(parser, False)
             next(parser.stream)
-            referenced.update(plural_names)
+            referenced.extend(plural_names)
         else:
             next(parser.stream)
 
